@@ -94,7 +94,7 @@ def make_num(dtype, n, with_null):
 
 def enum_grid(tier: str):
     for dtype in TEXT_DTYPES + CAT_DTYPES + NUM_DTYPES:
-        for mat in ("pandas", "narwhals", "arrow"):
+        for mat in ("pandas", "narwhals", "arrow", "dict"):
             for output in ("pandas", "numpy", "sparse"):
                 for usage in ("alone", "interaction", "nulls", "two", "wrapped", "late"):
                     yield {"dtype": dtype, "mat": mat, "output": output, "usage": usage, "levels": LEVELS, "vals": VALS}
@@ -107,7 +107,7 @@ def gen_random(rng: random.Random, tier: str) -> dict:
     vals = levels + [rng.choice(levels) for _ in range(rng.randint(0, 8))]
     rng.shuffle(vals)
     return {"dtype": rng.choice(TEXT_DTYPES[:6] + ["category", "category_unsorted", "category_ordered", "category_unused"]),
-            "mat": rng.choice(["pandas", "narwhals", "arrow"]), "output": rng.choice(["pandas", "numpy", "sparse"]),
+            "mat": rng.choice(["pandas", "pandas", "narwhals", "arrow", "dict"]), "output": rng.choice(["pandas", "numpy", "sparse"]),
             "usage": rng.choice(["alone", "interaction", "nulls", "wrapped"]), "levels": levels, "vals": vals,
             "null_prefix": rng.choice([0, 0, 0, 1, 99, 100, 101, 140])}
 
@@ -153,6 +153,10 @@ def judge(case) -> Outcome:
     kw = {}
     if mat == "narwhals":
         kw["materializer"] = "narwhals"
+    elif mat == "dict":  # a plain mapping of name -> column (the columns keep whatever dtype they were given)
+        src = {k: (df[k].array if hasattr(df[k], "array") and not isinstance(col, np.ndarray) else data[k]) for k in data}
+        src["V"] = col
+        kw["materializer"] = "pandas"
     elif mat == "arrow":
         try:
             src = pa.Table.from_pandas(df, preserve_index=False)
